@@ -190,12 +190,11 @@ let finish (advs : z list) (dir : direction) (r : info list outcome) : string =
   | Panic -> "panic"
   | OOB -> "oob"
 
-let split_input (input : string) : mode * t =
-  let m = if String.length input > 0 && input.[0] = 'd' then Debug else Release in
-  (m, parse_tree input 1)
+(* the leading letter (d | r) names the build profile of the harness binary; the model does not depend on it *)
+let split_input (input : string) : unit * t = ((), parse_tree input 1)
 
 let run (input : string) : string =
-  let (m, tree) = split_input input in
+  let (_, tree) = split_input input in
   match tree with
   | L [gd; lay; run; gl] ->
     let gd = gdef_ gd in
@@ -206,14 +205,14 @@ let run (input : string) : string =
      | L [I k; I script; lang; feats; kerning; kern; dir; advs] when zi k = 0 ->
        let lay = playout_parse (layout_ lay) in
        finish (ints advs) (dir_ dir)
-         (gpos_apply m lay gd (kern_ kern) (bool_ kerning) (ints feats) script (opt int_ lang) infos)
+         (gpos_apply lay gd (kern_ kern) (bool_ kerning) (ints feats) script (opt int_ lang) infos)
      | L [I k; pls; dir; advs] when zi k = 1 ->
        let infos' = List.map2 (fun x p -> match p with
            | L [I kn; pl] -> { x with i_kern = kn; i_place = placement_ pl }
            | _ -> failwith "hand-made info") infos (list_ pls) in
        finish (ints advs) (dir_ dir) (Ok infos')
      | L [I k; kern; nsm; dir; advs] when zi k = 2 ->
-       finish (ints advs) (dir_ dir) (apply_fallback m (kern_ kern) (List.map bool_ (list_ nsm)) infos)
+       finish (ints advs) (dir_ dir) (apply_fallback (kern_ kern) (List.map bool_ (list_ nsm)) infos)
      | _ -> failwith "run")
   | _ -> failwith "c05 input"
 
@@ -342,10 +341,10 @@ let judge (input : string) (impl : string) (model : string) : verdict =
   match oracle_positions input impl with
   | Some (cls, why) -> Violation (cls, why)
   | None ->
-  if impl = model then begin
-    if impl = "panic" then Violation ("overflow", "16-bit kerning / anchor accumulation overflowed (the model reproduces the debug-build panic)")
-    else Agree
-  end
+  if impl = "panic" || impl = "oob" then
+    (* positioning is total: accumulated adjustments saturate (C05_adjust_saturates, C05_kern_pair_is_fold) *)
+    Violation ("panic", "positioning panicked; specified " ^ String.sub model 0 (min 60 (String.length model)))
+  else if impl = model then Agree
   else if starts_with "MODEL-EXN" model then Mismatch "model driver failed to parse the case"
   else if impl = "panic" then Violation ("panic", "positioning panicked; specified " ^ String.sub model 0 (min 60 (String.length model)))
   else if model = "panic" then Mismatch ("model panics, implementation returned " ^ String.sub impl 0 (min 60 (String.length impl)))
